@@ -127,10 +127,25 @@ def decide(prop: str, tier: str, seed: int, replay: str | None) -> int:
         log(f"timeout: {e}")
         ctx.cleanup()
         return 2
-    except Exception:
+    except Exception as exc:
+        # An exception escaping the harness.  If it was raised INSIDE the library under test (a frame of the traceback lies under
+        # QCEL_REPO) the implementation refused something the harness — written against the unchanged tree, where every check
+        # completes — takes for granted: the correspondence can no longer be carried out.  That is a broken tie (reported below as
+        # VIOLATION ... no-failing-input-found with the traceback in the replay), not a harness crash.  Anything else stays exit 2.
+        tb = traceback.extract_tb(exc.__traceback__)
+        inside = [f for f in tb if str(f.filename).startswith(str(common.REPO) + "/")]
         log(traceback.format_exc())
-        ctx.cleanup()
-        return 2
+        if not inside or replay:
+            ctx.cleanup()
+            return 2
+        callers = [f for f in tb if "/harness/" in str(f.filename)]
+        where = f"{inside[-1].filename}:{inside[-1].lineno} in {inside[-1].name}"
+        via = f"{Path(callers[-1].filename).name}:{callers[-1].lineno} in {callers[-1].name}" if callers else "?"
+        broken.append(f"correspondence harness aborted: the implementation raised {type(exc).__name__}: {str(exc)[:200]} at {where} (reached from {via}), "
+                      "where the unchanged tree completes")
+        build_log = (build_log + "\n" + traceback.format_exc())[-6000:]
+        out = Outcome()
+        out.notes.append("run aborted by an exception raised inside the implementation; no oracle results")
 
     # 4b. failing-input search, escalated: an obligation or the correspondence is broken but the first pass of the
     #     oracle found no (unlisted) failing input -> run the generators + oracle again under further seeds, within
@@ -215,7 +230,7 @@ def decide(prop: str, tier: str, seed: int, replay: str | None) -> int:
                 + ([f"correspondence {mod.DRIVER if hasattr(mod,'DRIVER') else ''}: {len(out.mismatches)} disagreement(s)"] if out.mismatches else []),
                 "first_disagreement": first,
                 "case": first["case"] if first else None,
-                "build_log_tail": build_log[-3000:] if broken else "",
+                "build_log_tail": build_log[-4000:] if broken else "",
                 "search": f"property oracle evaluated on {out.evaluations} generated inputs (disagreeing inputs first): no failing input" + search_note,
             },
         )
